@@ -206,6 +206,13 @@ def run_property(prop, repo, tier, seed, configs, replay=None, quiet=False, writ
             ctx = Ctx(prop, repo, tier, 'thorough-extra', None)
             extra = mod.thorough(ctx, repo) or {}
             all_obs.extend(ctx.obs)
+        if tier == 'thorough' and os.path.abspath(repo) == '/repo' and not os.environ.get('SAVF_NO_SELFTEST'):
+            # checker self-test (both directions) on scratch copies: reported in the evidence, never as a violation of /repo
+            from . import selftest as st
+            res = st.selftest(prop)
+            extra = dict(extra, selftest=res)
+            if res['missed'] or res['benign_alarms']:
+                print('SELFTEST-NOTE property=%s missed=%s benign_alarms=%s' % (prop, res['missed'], res['benign_alarms']))
     except Inconclusive as e:
         print('INCONCLUSIVE property=%s reason=%s' % (prop, str(e).replace('\n', ' | ')[:1500]))
         if write_evidence:
